@@ -11,11 +11,19 @@ Monitor : code table + "-32603 message names class and text" + invocation counte
           RFC 8259 recogniser of the harness (servercases_ext.rfc8259_accepts), not by the parser under test.
 Text    : lean/JRV/Model/JsonText.lean (RFC 8259 recogniser, driver component `jsontext`), theorems C05_text_*,
           C05_malformed_text; facts stdlibLoadsPlain / loadsEmptyIsNone / loadsParsesWholeBody (tools/extractors/textlayer.py).
+          White space around the value and text after it: harness/servercases_ws.py (ws/…, garbage/…), theorems C05_text_ws_wrap,
+          C05_text_trailing_garbage (lean/JRV/Lemmas/JsonTextWs.lean, JsonTextGarbage.lean).
+Bytes   : harness/bytecases.py — bodies as bytes (BOM prefixes, UTF-16/32, invalid / overlong UTF-8, surrogates, NUL, latin-1) through
+          do_POST (fake connection and real TCP / Unix sockets) and the CGI handler (bytes handed straight to _marshaled_dispatch are
+          outside the domain — "data: A JSON request string" — run, not judged: out-of-domain/direct-bytes); model
+          lean/JRV/Model/ByteBody.lean (driver component `bytebody`), theorems C05_text_first_char, C05_body_*; fact fromBytesCodec
+          (tools/extractors/bytelayer.py).
 """
 import itertools
 import json
 import xmlrpc.server
 
+import bytecases
 import gen
 import impl
 import pyval
@@ -29,6 +37,12 @@ REQUIRED_THEOREMS = [
     "C05_malformed_text",
     "C05_empty_body",
     "C05_text_empty_malformed",
+    "C05_text_ws_wrap",
+    "C05_text_trailing_garbage",
+    "C05_text_first_char",
+    "C05_body_bom_malformed",
+    "C05_body_malformed",
+    "C05_body_undecodable",
     "C05_invalid",
     "C05_invalid_toplevel",
     "C05_fault_answer",
@@ -61,6 +75,7 @@ REQUIRED_THEOREMS = [
     "C05_gen_stdlibLoadsPlain",
     "C05_gen_emptyBodyRejectedInParseTry",
     "C05_gen_loadsParsesWholeBody",
+    "C05_gen_fromBytesCodec",
 ]
 
 MONITORS = [("codes", sc.monitor_c05)]
@@ -80,7 +95,10 @@ RULE = ("as C02 with emphasis on method names against registries of functions an
         "templates, next to the closest texts the grammar allows (quick: every production at one site + a 35 % sample; "
         "thorough: all x 2 versions; class:malformed/<production>, class:wellformed/<production>); every body of the run is "
         "judged by the RFC recogniser of the harness (monitor) and by the Lean recogniser JRV.Model.JsonText, compared with "
-        "the real jloads/loads (textlayer/...)")
+        "the real jloads/loads (textlayer/...); a seeded share of the well-formed requests of the run (five times the share in the thorough tier) again "
+        "wrapped in insignificant white space (class:ws/<where>/<characters>: must be handled exactly as the bare request) and again "
+        "followed / preceded by text that is not white space (class:garbage/<where>/<what>, 32 kinds: words, second values, brackets, "
+        "comments, NUL, BOM, Unicode spaces: -32700, nothing invoked)")
 
 
 def bind_differential(ctx):
@@ -283,13 +301,14 @@ def empty_body_check(ctx):
 
 def run(ctx):
     em = {"translated": 0.3, "structid": 0.3, "malformed": 0.35, "textlayer": True, "single": 1.6, "batch": 0.8, "damaged": 0.6, "descriptor": 0.8, "noise": 0.5, "pool": 0.4, "randreg": 2.5, "post": 0.02,
-          "exhaustive_single": True}
+          "exhaustive_single": True, "ws": 0.06, "garbage": 0.05}
     sc.standard_run(ctx, "C05", MONITORS, sc.proj_codes, em, RULE)
     bind_differential(ctx)
     resolve_differential(ctx)
     client_monitor(ctx)
     gate_check(ctx)
     empty_body_check(ctx)
+    bytecases.stage(ctx, "C05")
 
 
 def search(ctx):
@@ -299,6 +318,8 @@ def search(ctx):
 
 def replay(payload):
     case = payload.get("case") or {}
+    if case.get("bytes_case"):
+        return bytecases.replay(case)
     if case.get("empty_body"):
         m, v = _empty_body_verdict(case["empty_body"], case["registry"], case["ver"])
         print("empty %s body -> %r" % (case["empty_body"], v))
